@@ -109,6 +109,16 @@ func lastPathIdentifier(fieldPath ast.Path) string {
 	return strings.Join(lastPath, ".")
 }
 
+// isValidPackageSegment tells whether `package a.<segment>;` can be written:
+// formatPackageName leaves letters, digits and underscores.
+func isValidPackageSegment(segment string) bool {
+	if segment == "" || isReservedJavaKeyword(segment) {
+		return false
+	}
+
+	return segment[0] < '0' || segment[0] > '9'
+}
+
 // nolint: gocyclo
 func isReservedJavaKeyword(input string) bool {
 	// see https://docs.oracle.com/javase/tutorial/java/nutsandbolts/_keywords.html
